@@ -728,6 +728,30 @@ impl IQLEngine {
                 return;
             }
 
+            // The rewrite restricts a bound relation to the demanded tuples for every
+            // reader. That is only sound when the bound query atom is the relation's
+            // single use outside its own definition: a second query atom with another
+            // constant, or another rule reading the relation unbound, would see the
+            // restricted relation and lose rows.
+            let single_use = bindings.keys().all(|rel| {
+                program
+                    .rules
+                    .iter()
+                    .filter(|rule| rule.head.relation != *rel)
+                    .flat_map(|rule| rule.body.iter())
+                    .filter(|pred| match pred {
+                        ast::BodyPredicate::Positive(atom) | ast::BodyPredicate::Negated(atom) => {
+                            atom.relation == *rel
+                        }
+                        _ => false,
+                    })
+                    .count()
+                    == 1
+            });
+            if !single_use {
+                return;
+            }
+
             let (rewritten, magic_seeds) =
                 magic_sets::MagicSetRewriter::rewrite_program(program, &bindings);
 
